@@ -1661,6 +1661,14 @@ func leafContext(o Obj, l Leaf) string {
 		if x.Labels["acme.cert-manager.io/http01-solver"] == "true" {
 			c += ":solver"
 		}
+		if role != "regular" {
+			// a minion inherits annotations of its master: whether the enabling annotation of a feature is the Ingress's own
+			if _, own := x.Annotations["nginx.org/limit-req-rate"]; own {
+				c += ":lr=own"
+			} else {
+				c += ":lr=none"
+			}
+		}
 		if m := ctxPathRe.FindStringSubmatch(l.Path); m != nil {
 			ri, pi := atoi(m[1]), atoi(m[2])
 			if ri < len(x.Spec.Rules) && x.Spec.Rules[ri].HTTP != nil && pi < len(x.Spec.Rules[ri].HTTP.Paths) {
